@@ -187,6 +187,19 @@ func runRangeCase(c *vrun.Ctx, env *penv, retry bool, size int, ifr, rg string) 
 	if env.seq%211 == 0 {
 		c.Sample(map[string]any{"case": desc, "status": resp.Status, "content_range": resp.Header.Get("Content-Range")})
 	}
+	// Serving (or refusing) a range must leave the stored representation as it was: a later
+	// plain GET is answered with the complete body and the origin's length and validators.
+	after, _ := env.do("GET", uri, nil, "")
+	switch {
+	case after.Err != "" || after.Dropped || after.Status != 200 || after.Body != full:
+		report("full-get-after-range-damaged", fmt.Sprintf("a plain GET after the range request got status %d, %d of %d body bytes, Content-Length %q %s", after.Status, len(after.Body), len(full), after.Header.Get("Content-Length"), after.Err))
+		c.Violation("C01/e2e/full-get-after-range-damaged", fmt.Sprintf("a plain GET after a range request on the same stored entry got status %d, %d of %d body bytes (Content-Length %q) %s | %s", after.Status, len(after.Body), len(full), after.Header.Get("Content-Length"), after.Err, desc), nil)
+	case after.Header.Get("Content-Range") != "":
+		report("full-get-after-range-carries-content-range", "a plain GET after the range request carries Content-Range "+after.Header.Get("Content-Range"))
+		c.Violation("C08/e2e/stored-headers-changed-by-range-request", "a plain GET after a range request carries a Content-Range the origin never sent: "+after.Header.Get("Content-Range")+" | "+desc, nil)
+	case after.Header.Get("Etag") != etag || after.Header.Get("Content-Type") != "application/x-verif":
+		report("full-get-after-range-headers-changed", fmt.Sprintf("ETag %q Content-Type %q", after.Header.Get("Etag"), after.Header.Get("Content-Type")))
+	}
 }
 
 func rangeClass(rg string, wf, sat bool) string {
